@@ -353,7 +353,7 @@ def check_directory(mtjs_a, mtjs_b, src, dest):
         out.append({'kind': kind, 'where': 'transform directory mode', 'case': case,
                     'detail': '%s [%s -> %s]' % (detail, src, dest), 'what': 'directory mode: ' + kind})
     d = workdir()
-    sd = os.path.join(d, 'srcdir')
+    sd = os.path.join(d, 'src[v2] dir')        # a name with glob metacharacters and a blank
     os.makedirs(sd)
     names = ('part.0', 'part.1')       # as `transform --split` names its parts: the same stem, different extensions
     for name, mts in zip(names, (a, b)):
@@ -435,6 +435,40 @@ def check_gf_transfer(mtjs, dest):
             bad('content', x)
     except codecs.DecodeError as e:
         bad('undecodable', str(e))
+    return out
+
+
+def check_cons_columns(mtjs, version):
+    """Everything both formats can carry: the morphology (and, in export 4, lemma) column of the constituent
+    lines of an export file survives an export -> export conversion."""
+    mts = [model.MT.from_json(j) for j in mtjs]
+    case = {'cons_columns': version, 'corpus': mtjs}
+    out = []
+
+    def bad(kind, detail):
+        out.append({'kind': kind, 'where': 'transform export%d->export%d' % (version, version), 'case': case,
+                    'detail': '%s [corpus %s]' % (detail, [model.mt_str(m.root, m.toks) for m in mts]),
+                    'what': 'columns of constituent lines: ' + kind})
+    d = workdir()
+    sp, dp = os.path.join(d, 'in.export'), os.path.join(d, 'out.export')
+    with open(sp, 'w', encoding='utf-8') as f:
+        f.write(codecs.encode_export(mts, version=version, cons_morph='Gen.Pl.Fem', cons_lemma='--' if version == 3 else 'lem'))
+    st, so, se, exc = cli.run(['transform', sp, dp, '--src-format', 'export', '--dest-format', 'export']
+                              + (['--dest-opts', 'export_four'] if version == 4 else []))
+    if st != 0:
+        bad('cli-failed', 'exit status %r %s' % (st, cli.describe(exc)))
+        return out
+    try:
+        cols = []
+        codecs.decode_export(codecs.read_out(dp), version=version, cons_out=cols)
+    except codecs.DecodeError as e:
+        bad('undecodable', str(e))
+        return out
+    for k, sent in enumerate(cols):
+        wrong = [(num, m, l) for num, m, l in sent if m != 'Gen.Pl.Fem' or (version == 4 and l != 'lem')]
+        if wrong:
+            bad('content', 'sentence %d: constituent lines carry (number, morph, lemma) %r, the source had Gen.Pl.Fem%s on every one'
+                % (k + 1, wrong, ' / lem' if version == 4 else ''))
     return out
 
 
@@ -561,6 +595,8 @@ def check_case(case):
             return check_subprocess(case['corpus'], case['src'], case['dest'])
         if case.get('gf_transfer'):
             return check_gf_transfer(case['corpus'], case['dest'])
+        if case.get('cons_columns'):
+            return check_cons_columns(case['corpus'], case['cons_columns'])
         return check_chain(case['corpus'], case['fmts'], case.get('dev'))
 
 
@@ -644,6 +680,8 @@ def run_chunk(chunk):
                 devs.append((Pc[:3], ['export4', dest], {'dest_opts': ['gf', 'gf_separator:0'], 'expect': 'gf', 'sep': '0'}))
             for dest in ('export3', 'brackets', 'discobrackets'):
                 take(check_gf_transfer([m.to_json() for m in Pc[:3]], dest), True, ('gf-transfer', dest))
+            for version in (3, 4):
+                take(check_cons_columns([m.to_json() for m in P[:4]], version), True, ('cons-columns', version))
             # words with several bracket kinds (formats that can carry them as sources) and with non-ASCII spaces
             par = [special_words(((1, 2), 3, 4), ['(SPD)', 'x[1]', '{a}', 'Student(inn)en'], 31),
                    special_words((1, (2, 3)), ['(', ')', 'a)('], 32)]
